@@ -35,11 +35,11 @@ git -C /repo diff --quiet || { echo "/repo dirty"; exit 2; }
 git -C /repo apply "$wt/MUTANT.diff" || exit 2
 results=""
 for c in $checks; do
-  out=$(cd /verif && ./check $c quick 2>&1); rc=$?
+  out=$(cd ${VERIF_ROOT:-/verif} && ./check $c quick 2>&1); rc=$?
   v=$(echo "$out" | grep -m1 -o 'VIOLATION C[0-9]*/[^:]*' | head -1)
   results="$results $c:quick:rc=$rc[$v]"
   if [ $rc -eq 0 ] && [ "$c" = "$prop" ]; then
-    out=$(cd /verif && ./check $c thorough 2>&1); rc=$?
+    out=$(cd ${VERIF_ROOT:-/verif} && ./check $c thorough 2>&1); rc=$?
     v=$(echo "$out" | grep -m1 -o 'VIOLATION C[0-9]*/[^:]*' | head -1)
     results="$results $c:thorough:rc=$rc[$v]"
   fi
